@@ -37,6 +37,7 @@ inductive Stmt
  | block (l : Nat) (body : Stmt)
  | brk (l : Nat) | cont (l : Nat) | ret
  | abort                 -- panic: the process terminates here (no execution continues)
+ | acc (f : Nat) (w : Bool)   -- a plain (non-atomic) read or write of struct field f
 deriving Repr, DecidableEq
 
 inductive Out | ok (σ : St) (e : Exit) | bad
@@ -55,6 +56,7 @@ def blockExit (l : Nat) : Exit → Exit
 
 inductive Exec : Stmt → St → Out → Prop
  | skip σ : Exec .skip σ (.ok σ .normal)
+ | acc f w σ : Exec (.acc f w) σ (.ok σ .normal)
  | lockOk m σ : m ∉ σ.held → Exec (.lock m) σ (.ok { σ with held := m :: σ.held } .normal)
  | lockBad m σ : m ∈ σ.held → Exec (.lock m) σ .bad
  | unlockOk m σ : m ∈ σ.held → Exec (.unlock m) σ (.ok { σ with held := σ.held.erase m } .normal)
@@ -92,6 +94,7 @@ def bindN : List (St × Exit) → (St → Option (List (St × Exit))) → Option
 
 def check : Stmt → St → Option (List (St × Exit))
  | .skip, σ => some [(σ, .normal)]
+ | .acc _ _, σ => some [(σ, .normal)]
  | .lock m, σ => if m ∈ σ.held then none else some [({ σ with held := m :: σ.held }, .normal)]
  | .unlock m, σ => if m ∈ σ.held then some [({ σ with held := σ.held.erase m }, .normal)] else none
  | .deferUnlock m, σ => some [({ σ with deferred := m :: σ.deferred }, .normal)]
@@ -165,6 +168,7 @@ theorem check_sound : ∀ (s : Stmt) (σ : St) (o : Out), Exec s σ o →
   intro s σ o hex
   induction hex with
   | skip σ => intro outs hc; simp [check] at hc; subst hc; exact ⟨σ, .normal, rfl, by simp⟩
+  | acc f w σ => intro outs hc; simp [check] at hc; subst hc; exact ⟨σ, .normal, rfl, by simp⟩
   | lockOk m σ hm => intro outs hc; simp [check, hm] at hc; subst hc; exact ⟨_, _, rfl, by simp⟩
   | lockBad m σ hm => intro outs hc; simp [check, hm] at hc
   | unlockOk m σ hm => intro outs hc; simp [check, hm] at hc; subst hc; exact ⟨_, _, rfl, by simp⟩
